@@ -31,6 +31,7 @@ type prod struct {
 	retErr    error
 	parks     int
 	accStep   int    // script step in which the acceptance was observed
+	notBefore int    // script step before which the acceptance cannot have happened: the step in which the offer was called
 	pred      string // decision predicted from the quiescent model state when the offer started
 }
 
@@ -198,7 +199,10 @@ func (s *sim) handle(ev event) {
 		} else {
 			// acceptance order is only known between requests whose acceptance was observed in different
 			// steps (two producers woken in one step report in scheduler order, not in acceptance order)
-			if idx != 0 && s.cfg.Consumers == 1 && !s.drain && s.queue[0].accStep < p.accStep {
+			// and an observation can lag: a blocked producer woken in an earlier step may report only when a later
+			// step (e.g. its cancellation) makes it return. Sound rule: the earlier request's acceptance was observed
+			// in a step before the later one can have been accepted at all.
+			if idx != 0 && s.cfg.Consumers == 1 && !s.drain && s.queue[0].accStep < p.accStep && s.queue[0].accStep < p.notBefore {
 				s.violation("fifo", fmt.Sprintf("single consumer received %s before the earlier accepted %s", p.id, s.queue[0].id), "what", "inversion")
 			}
 			s.queue = append(s.queue[:idx], s.queue[idx+1:]...)
@@ -548,6 +552,7 @@ func (s *sim) offer(p *prod) {
 		s.byID[p.id] = p
 	}
 	p.state = "started"
+	p.notBefore = s.step
 	if s.cfg.Persistent {
 		s.gaugeBefore, _ = s.r.size()
 	}
@@ -583,6 +588,7 @@ func (s *sim) offerBurst(ps []*prod) {
 			s.byID[p.id] = p
 		}
 		p.state = "started"
+		p.notBefore = s.step
 		p.pred = "accept"
 		ctx, cancel := context.WithCancel(context.Background())
 		p.cancel = cancel
